@@ -23,6 +23,7 @@ Definition tr_ohop (h : oto_hop) : o_hop :=
   match h with
   | HNew u kvs => SNew u kvs | HCopy i s => SCopy i s | HOp i s op => SOp i s (tr_oop op)
   | HUpdFrom ior i s j t => SUpdFrom ior i s j t | HFromkeys keys v => SFromkeys keys v
+  | HDeepcopy i s => SCopy i s | HEq i s j t => SEq i s j t
   end.
 Definition tr_mop (op : m2m_op) : m_op :=
   match op with
